@@ -23,12 +23,15 @@ CHECK_DEADLOCK FALSE
 """
 
 
+NOFILE = 96     # descriptor limit the daemon runs under, so that exhaustion needs 100 connections and not 1000
+
+
 def run_history(args):
     idx, hist, root, release = args
     digest = hashlib.sha256(b"c17-%d" % idx).digest()
     domain = "h%d.example.org" % idx
     t = tacdlib.Tacd(os.path.join(root, "t%05d%s" % (idx, "r" if release else "d")), domain, tacdlib.proof_text(digest), release=release,
-                     listener="unix" if idx % 5 == 4 else "tcp")
+                     listener="unix" if idx % 5 == 4 else "tcp", nofile=NOFILE)
     ev = [{"e": "Reset", "domain": "dns:" + domain, "value": "0420" + digest.hex(), "history": hist, "build": "release" if release else "debug"}]
     try:
         if not t.started:
@@ -59,6 +62,9 @@ def run(ctx):
     rd = tlc.model_check("Tacd", MC_CFG % (tlc.tla_set(LABELS), '{"HandshakeFailPanics", "PanicAbort"}', 2), "C17_dev", workers=2, timeout=600)
     if not rd["violated"]:
         raise ToolError("Tacd model sanity: unwrap + panic=abort is not caught")
+    rd2 = tlc.model_check("Tacd", MC_CFG % (tlc.tla_set(LABELS), '{"AcceptErrorEndsLoop"}', 2), "C17_dev2", workers=2, timeout=600)
+    if not rd2["violated"]:
+        raise ToolError("Tacd model sanity: an accept loop that ends on an accept() error is not caught")
     hists, seen = [], set()
     for h in tlc.replays(r["raw"]):
         k = tuple(h)
